@@ -91,7 +91,29 @@ impl Check for C13 {
     fn strategy(&self, tier: Tier) -> BoxedStrategy<PairScenario> {
         let p = GenParams { max_ticks: tier.pick(200, 500), max_sends: 8, max_frags: tier.pick(6, 20), low_bandwidth: true, tail: false, tight_alloc: false, small_windows: false, modes: [1, 2, 2, 3], ..GenParams::default() };
         let q = GenParams { small_windows: true, tight_alloc: true, ..p.clone() };
-        prop_oneof![3 => scenario_strategy(&p), 1 => scenario_strategy(&q)].boxed()
+        // acknowledgement backlog shape: endpoint 0 has a tight ceiling, owes many ack groups (endpoint 1 sends
+        // a lot, its frames suffer loss bursts so that the received ids are sparse) and flushes often
+        let r = GenParams { max_sends: 14, max_frags: 3, modes: [1, 3, 1, 2], ..p.clone() };
+        let backlog = (scenario_strategy(&r), 1472u32..6000, proptest::collection::vec((0usize..400, 33usize..120), 0..4)).prop_map(|(mut sc, bw, bursts)| {
+            sc.dirs[0].bw_limit = bw;
+            sc.dirs[1].bw_limit = sc.dirs[1].bw_limit.max(2_000_000);
+            for (at, len) in bursts {
+                let f = &mut sc.links[1].fates;
+                if f.len() < at + len {
+                    f.resize(at + len, Fate::Deliver(0));
+                }
+                for k in at..at + len {
+                    f[k] = Fate::Drop;
+                }
+            }
+            for t in sc.ticks.iter_mut() {
+                t.acts[0].flushes = t.acts[0].flushes.max(2);
+                t.dt_us = t.dt_us.min(30_000);
+            }
+            sc.normalize();
+            sc
+        });
+        prop_oneof![3 => scenario_strategy(&p), 1 => scenario_strategy(&q), 2 => backlog].boxed()
     }
 
     fn cases(&self, tier: Tier) -> u64 {
@@ -137,6 +159,9 @@ impl Check for C13 {
         }
         if limited {
             classes.push("credit_limited");
+        }
+        if trace.stats[0].iter().chain(trace.stats[1].iter()).any(|st| st.v.ack_queue_len >= 2) {
+            classes.push("two_or_more_ack_groups_owed");
         }
         CaseResult::ok(limited, classes)
     }
